@@ -33,7 +33,10 @@ for sd in sorted(p for p in (V / "seeded").iterdir() if p.is_dir()):
         continue
     if missed_only and any(c.get("caught") for c in meta.get("checks_run", [])):
         continue
-    for chk in [pid] + (also[0] if also else []):
+    chks = [pid] + (also[0] if also else [])
+    if "--all-checks" in args:
+        chks = [f"C{i:02d}" for i in range(1, 19) if f"C{i:02d}" != pid]
+    for chk in chks:
         jobs.append((sd, chk))
 
 workers = Queue()
